@@ -37,6 +37,11 @@ func checkC01(c *Ctx) {
 	sim := &SketchGen{Init: one, Tokens: append(append([]int{}, tokBins3...), tokZero...), Ops: []string{"Add"}, Q: 4, QDen: 8,
 		Depth: c.pick(12, 24), Simulate: true, Num: c.pick(1500, 40000)}
 	c.runSketchGen(sim, mx, c.pick(8, 16), "simulated long add histories")
+	// bulk adds: 70 adds of one value make the paginated store allocate a page while isolated lower values stay in its
+	// buffer; with three more adds n-1 = 72 and the grid k/72 asks for EVERY integer rank, also the one where the answer
+	// moves from the buffer to the page
+	bulk := &SketchGen{Init: one, Tokens: []int{10, 11, 14, -12}, Ops: []string{"Add", "AddN"}, Q: 4, QDen: 72, Depth: 4}
+	c.runSketchGen(bulk, mx, c.pick(6, 12), "exhaustive tree with bulk adds, q on the grid k/72")
 	// direction B: production-size inputs, q = every k/(n-1) and both float neighbours, validated by TLC (Trace_Sketch)
 	c.runSketchTraces(c.pick(4, 60), false, c.pick(600, 2500), "unit-weight inputs, q at every k/(n-1)")
 }
